@@ -95,7 +95,7 @@ fn issuer_history(ctx: &Ctx, case: u64, l: &mut Local) {
         l.evals += 1;
         // ---- a failing call?
         if with_failures && r.chance(35) {
-            let kind = r.below(5);
+            let kind = r.below(7);
             let fmt = *r.pick(&[Fmt::Compact, Fmt::Json]);
             let holder = match r.below(3) {
                 0 => None,
@@ -108,7 +108,11 @@ fn issuer_history(ctx: &Ctx, case: u64, l: &mut Local) {
                 1 => api::issue_raw(&mut issuer, &json!(poison_tag), sd_jwt_rs::ClaimsForSelectiveDisclosureStrategy::TopLevel, holder, true, fmt),
                 2 => api::issue_raw(&mut issuer, &json!({"iss": "i", "exp": 4000000000u64, "a": poison_tag}), sd_jwt_rs::ClaimsForSelectiveDisclosureStrategy::Custom(vec!["nope"]), holder, true, fmt),
                 3 => api::issue_raw(&mut issuer, &json!({"iss": "i", "exp": 4000000000u64, "o": {"_sd": [poison_tag]}}), sd_jwt_rs::ClaimsForSelectiveDisclosureStrategy::AllLevels, holder, true, fmt),
-                _ => api::issue_raw(&mut issuer, &json!({"iss": "i", "exp": 4000000000u64, "a": [{"...": poison_tag}]}), sd_jwt_rs::ClaimsForSelectiveDisclosureStrategy::AllLevels, holder, true, fmt),
+                4 => api::issue_raw(&mut issuer, &json!({"iss": "i", "exp": 4000000000u64, "a": [{"...": poison_tag}]}), sd_jwt_rs::ClaimsForSelectiveDisclosureStrategy::AllLevels, holder, true, fmt),
+                // a Custom list whose FIRST paths are fine (they name claims that later calls often
+                // carry in clear) and whose last one is malformed
+                5 => api::issue_raw(&mut issuer, &json!({"iss": "i", "exp": 4000000000u64, "sub": poison_tag, "nbf": 1, "iat": 2}), sd_jwt_rs::ClaimsForSelectiveDisclosureStrategy::Custom(vec!["$.sub", "$.nbf", "$.iat", "$.cnf", "no-dollar-prefix"]), holder, true, fmt),
+                _ => api::issue_raw(&mut issuer, &json!({"iss": "i", "exp": 4000000000u64, "sub": poison_tag, "o": {"_sd": 1}}), sd_jwt_rs::ClaimsForSelectiveDisclosureStrategy::Custom(vec!["$.sub", "$.nbf", "$.o"]), holder, true, fmt),
             };
             l.count("issuer.calls.failing");
             if out.is_ok() {
@@ -367,7 +371,7 @@ fn holder_history(ctx: &Ctx, case: u64, l: &mut Local) {
         l.evals += 1;
         if with_failures && r.chance(35) {
             let sel_ok = pipeline::random_selection(&mut r, &s.u);
-            let kind = r.below(9);
+            let kind = r.below(11);
             type A = (Value, Option<String>, Option<String>, Option<(Alg, usize)>, Option<String>);
             let args: A = match kind {
                 0 => (sel_ok.clone(), Some("n".into()), None, None, None),
@@ -379,6 +383,12 @@ fn holder_history(ctx: &Ctx, case: u64, l: &mut Local) {
                 5 => (sel_ok.clone(), Some(String::new()), Some(String::new()), None, None),
                 6 => (sel_ok.clone(), Some(String::new()), None, None, None),
                 7 => (sel_ok.clone(), None, Some(String::new()), None, None),
+                // complete key-binding arguments whose algorithm name is spelled in another case / with blanks
+                8 | 9 => {
+                    let hk = cfg.holder.unwrap_or((Alg::ES256, 1));
+                    let name = if hk.0 == Alg::ES256 { *r.pick(&["es256", "Es256", " ES256", "ES256 "]) } else { *r.pick(&["eddsa", "EDDSA", "Eddsa", "EdDSA "]) };
+                    (sel_ok.clone(), Some("n".into()), Some("a".into()), Some(hk), Some(name.to_string()))
+                }
                 // a selector that fails INSIDE a claim: a wrong shape / unknown child below a real member
                 _ => {
                     let mut sel = sel_ok.clone();
